@@ -544,6 +544,12 @@ def rule_axis(prog: Program, modules: Set[str]) -> List[Instance]:
                             out.append(Instance("R-AXIS", cid, BAD, f"`{short(n, 70)}`: right-hand side is in ({', '.join(o)}) order but {badn}", fi.where(n)))
                         else:
                             out.append(Instance("R-AXIS", cid, OK, f"unpack of ({', '.join(o)})-ordered value into {[c[0] for c in chk2]}", fi.where(n)))
+                # T9: builtin min()/max() of a sequence of pairs is lexicographic, not per-axis
+                if isinstance(val, ast.Call) and isinstance(val.func, ast.Name) and val.func.id in ("min", "max") and len(val.args) == 1 and not val.keywords and len(tg.elts) == 2:
+                    bset = {x for x in bel if x}
+                    if len(bset) == 2:
+                        cid = _cid(fi, "T9:lexmin", n, counter)
+                        out.append(Instance("R-AXIS", cid, BAD, f"`{short(n, 70)}`: builtin {val.func.id}() of a sequence of pairs compares them lexicographically, so `{names[1]}` is the second component of the pair with the extreme first component, not the extreme of its own axis (use a per-axis reduction)", fi.where(n)))
             # iteration over zip(...) with tuple target: each target name vs order position is not
             # meaningful; instead check zip argument orders (T3 above)
             # ---------------- T5 (i): X +/- Y
